@@ -2157,9 +2157,10 @@ PROPS["C02"]["partial"] = [x for x in PROPS["C02"]["partial"] if not x.startswit
     "every integer is the literal's exact integer) and c02_floats_5ulp_default (default build, input shorter than 2^30 bytes: every float "
     "leaf finite, sign of its literal, within 5 ulp of the literal's exact value, and equal to roundNE64 of it inside the window <= 15 "
     "significant digits / net exponent within +-22). What remains is only what C07 / C08 themselves leave: these size bounds, and in the "
-    "default build 5 ulp (not nearest) outside the window. The statement is over the number nodes of the TREE (duplicate-key members that "
-    "the object drops included); that every number of the value is one of them is by canon's definition (objectOf selects among the "
-    "member values), not a separate lemma. arbitrary_precision has no float leaves (literal text). The driver's verdict `C02 <src>: float "
+    "default build 5 ulp (not nearest) outside the window. Both theorems state it twice: over the number nodes of the TREE (AllNums; "
+    "duplicate-key members that the object drops included) and over the numbers of the VALUE (every x in numLeaves v is numOf of a number "
+    "node p in numNodes t - canon_leaves: canon only copies, objectOf selects among the member values - with NearestNum p x resp. "
+    "Within5Num p x). arbitrary_precision has no float leaves (literal text). The driver's verdict `C02 <src>: float "
     "value of literal ...` (every number of the crate's value matched with its literal, judged with Spec.Decimal / Spec.Ieee alone) is unchanged",
 ]
 PROPS["C02"]["assumptions"] = [x for x in PROPS["C02"]["assumptions"] if not x.startswith("float values are whatever the configured conversion returns")] + [
@@ -2169,7 +2170,8 @@ PROPS["C02"]["level_text"] += (" Composition with C07 / C08 (Props/C02Floats.lea
     "the syntax tree, derives_allNums = every number node of a derived tree is a well-formed literal no longer than the text): "
     "c02_floats_nearest_fr - under float_roundtrip every float of a parsed Value (text shorter than 2^29 - 20 bytes) is the IEEE nearest-even "
     "binary64 of the exact decimal value of the literal it was parsed from and every integer is the literal's exact integer "
-    "(c02_value_is_canon + numOf_fr + c07_other_literals / deFloat64_nearest_all + roundNE64_correct); c02_float_document_nearest_fr - the "
+    "(c02_value_is_canon + numOf_fr + c07_other_literals / deFloat64_nearest_all + roundNE64_correct), stated at every number node of the "
+    "tree and, through canon_leaves (every number of canon t is numOf of a number node of t), at every number of the value; c02_float_document_nearest_fr - the "
     "value-level reading for a document that is one number; c02_floats_5ulp_default - in the default build every float leaf (text shorter "
     "than 2^30 bytes) is finite, signed as its literal, within 5 ulp of the literal's exact value and correctly rounded inside the exact "
     "window (numOf_eq_numOfLit + c08_finite_signed / c08_within_5ulp / c08_exact_short); kernel-checked examples on "
